@@ -4,53 +4,77 @@
    subscriber is sent for a published payload (pubsub.go liveSubscription writeMessage).
    Executable, no proofs. *)
 From T38 Require Import Base.Bytes Base.Utf8 Model.Json.
+From T38 Require Gen.Templates.
 Open Scope N_scope.
 
 Inductive omode := OJson | OResp.
 
 Inductive pcmd :=
-| POutput (m : omode)    (* OUTPUT json / OUTPUT resp *)
-| POther.                (* any other command, OUTPUT without or with a bad argument included *)
+| POutput (m : omode)      (* OUTPUT json / OUTPUT resp *)
+| PHello (digit : bool)    (* HELLO arg; digit = (arg >= "0" && arg <= "9") as Go compares strings *)
+| POther.                  (* any other command, OUTPUT / HELLO without or with another argument included *)
 
 (* client.outputType: None is Null (never set on this connection) *)
 Definition conn := option omode.
 
-(* one iteration of the inner loop: dflt = defaultOutputType (-o), parsed = what the reader set for
-   this framing (RESP for RESP / telnet, JSON for native) *)
-Definition serve_msg (dflt : option omode) (parsed : omode) (c : conn) (x : pcmd) : conn * omode :=
+(* handleInputCommand, `if cmd == "hello"`: with the server started with -o json, a message in JSON
+   mode on a RESP-framed connection (RESP protocol or telnet lines) and HELLO <digit…>, the "unknown
+   command" error is written in RESP mode (redis clients open with HELLO 3 and expect a RESP error) *)
+Definition hello_resp (dflt : option omode) (parsed m : omode) (digit : bool) : bool :=
+  digit &&
+  (match dflt with Some OJson => true | _ => false end) &&
+  (match m with OJson => true | OResp => false end) &&
+  (match parsed with OResp => true | OJson => false end).
+
+(* one iteration of the inner loop of netServe: dflt = defaultOutputType (-o), parsed = what the reader
+   set for this framing (RESP for RESP / telnet, JSON for native).  [restore]: the HELLO branch puts
+   msg.OutputType back before it returns (ot := msg.OutputType … msg.OutputType = ot). *)
+Definition serve_msg_r (restore : bool) (dflt : option omode) (parsed : omode) (c : conn) (x : pcmd) : conn * omode :=
   let m := match c with
            | Some m => m
            | None => match dflt with Some m => m | None => parsed end
            end in
-  let m' := match x with POutput t => t | POther => m end in   (* cmdOUTPUT sets msg.OutputType before replying *)
-  (Some m', m').                                                (* client.outputType = msg.OutputType *)
+  match x with
+  | POutput t => (Some t, t)        (* cmdOUTPUT sets msg.OutputType before replying *)
+  | POther => (Some m, m)
+  | PHello d =>
+      if hello_resp dflt parsed m d then (Some (if restore then m else OResp), OResp)
+      else (Some m, m)
+  end.                               (* first component: client.outputType = msg.OutputType after the handler *)
 
 (* for _, msg := range msgs *)
-Fixpoint serve_packet (dflt : option omode) (parsed : omode) (c : conn) (msgs : list pcmd) : conn * list omode :=
+Fixpoint serve_packet_r (restore : bool) (dflt : option omode) (parsed : omode) (c : conn) (msgs : list pcmd) : conn * list omode :=
   match msgs with
   | [] => (c, [])
   | x :: r =>
-      let '(c1, m) := serve_msg dflt parsed c x in
-      let '(c2, ms) := serve_packet dflt parsed c1 r in
+      let '(c1, m) := serve_msg_r restore dflt parsed c x in
+      let '(c2, ms) := serve_packet_r restore dflt parsed c1 r in
       (c2, m :: ms)
   end.
 
 (* for { conn.Read(packet) ... } *)
-Fixpoint serve (dflt : option omode) (parsed : omode) (c : conn) (packets : list (list pcmd)) : list omode :=
+Fixpoint serve_r (restore : bool) (dflt : option omode) (parsed : omode) (c : conn) (packets : list (list pcmd)) : list omode :=
   match packets with
   | [] => []
   | p :: ps =>
-      let '(c1, ms) := serve_packet dflt parsed c p in
-      ms ++ serve dflt parsed c1 ps
+      let '(c1, ms) := serve_packet_r restore dflt parsed c p in
+      ms ++ serve_r restore dflt parsed c1 ps
   end.
 
-(* specification: a reply is in the mode of the latest OUTPUT switch at or before its command,
-   else in the connection's initial mode *)
-Fixpoint spec_modes (cur : omode) (msgs : list pcmd) : list omode :=
+(* the tree as it is: whether the HELLO branch restores is read from the source by tmplx *)
+Definition serve_msg := serve_msg_r Gen.Templates.hello_restores_output.
+Definition serve_packet := serve_packet_r Gen.Templates.hello_restores_output.
+Definition serve := serve_r Gen.Templates.hello_restores_output.
+
+(* specification: a reply is in the mode of the latest OUTPUT switch at or before its command, else
+   in the connection's initial mode; HELLO is answered in RESP under the go-redis condition and
+   changes nothing for the commands after it *)
+Fixpoint spec_modes (dflt : option omode) (parsed cur : omode) (msgs : list pcmd) : list omode :=
   match msgs with
   | [] => []
-  | POutput t :: r => t :: spec_modes t r
-  | POther :: r => cur :: spec_modes cur r
+  | POutput t :: r => t :: spec_modes dflt parsed t r
+  | PHello d :: r => (if hello_resp dflt parsed cur d then OResp else cur) :: spec_modes dflt parsed cur r
+  | POther :: r => cur :: spec_modes dflt parsed cur r
   end.
 
 Definition initial_mode (dflt : option omode) (parsed : omode) (c : conn) : omode :=
@@ -62,7 +86,7 @@ Fixpoint serve_packet_hoisted (ot : option omode) (parsed : omode) (c : conn) (m
   | [] => (c, [])
   | x :: r =>
       let m := match ot with Some m => m | None => parsed end in
-      let m' := match x with POutput t => t | POther => m end in
+      let m' := match x with POutput t => t | _ => m end in
       let '(c2, ms) := serve_packet_hoisted ot parsed (Some m') r in
       (c2, m' :: ms)
   end.
